@@ -165,7 +165,20 @@ def show(x):
     return str(x)
 
 
-def run(F, rep):
+def generated_tables():
+    """every table of 1..3 rules over two output values, every pattern of matches, both priority orders, with and without a default output"""
+    import itertools
+    out = []
+    for n in (1, 2, 3):
+        for ms in itertools.product((True, False), repeat=n):
+            for os_ in itertools.product(("a", "b"), repeat=n):
+                for pr in (["a", "b"], ["b", "a"]):
+                    out.append(([(m, [o]) for m, o in zip(ms, os_)], pr, None))
+                out.append(([(m, [o]) for m, o in zip(ms, os_)], ["a", "b"], ["d"]))
+    return out
+
+
+def run(F, rep, tier="quick"):
     rid = rep.rule("R03.10", "every hit-policy evaluator, folded on small evaluated tables (0..3 matching rules, equal / different outputs, priorities, default output, one and two "
                              "output components), returns what the statement prescribes for that policy")
     total = 0
@@ -177,7 +190,7 @@ def run(F, rep):
             rep.missing_anchor(rid, fn)
             continue
         bad, unknown, ok = [], [], 0
-        for rules, priority, default in SINGLE:
+        for rules, priority, default in (SINGLE + generated_tables() if tier == "thorough" else SINGLE):
             cases = [(rules, priority, default, ("out",))]
             for rules_, priority_, default_, comps in cases:
                 got, note = fold(F, policy, rules_, priority_, default_, comps)
